@@ -95,7 +95,10 @@ def st_op(draw):
         return ["seek", whence, a, draw(_B),
                 draw(st.sampled_from([0, 0, 0, 0, 0, 0, 0, 1]))]
     mode = draw(st.sampled_from(["n"] * 6 + ["bnd"] * 4 + ["eof"] * 2
-                                + ["cross", "zero"]))
+                                + ["cross", "zero", "rest"]))
+    if mode == "rest":
+        # "everything up to the end": read(), read(-1), read(None), read(-7)
+        return ["read", "rest", draw(st.integers(0, 3)), 0]
     if mode == "zero":
         return ["read", "zero", 0, 0]
     if mode == "eof":
@@ -234,6 +237,8 @@ def _resolve_read(op, pos, L, cs):
     if mode == "zero":
         return 0
     left = L - pos
+    if mode == "rest":
+        return max(left, 0)
     if mode == "cross":
         return max(left, 0) + b
     if mode == "eof":
@@ -410,7 +415,12 @@ def _run_bytes(spec, rec):
                 if rcls in ("crossing-eof", "beyond-eof"):
                     ctx = "after-read-beyond-eof"       # sticky
                 try:
-                    data = f.read(n)
+                    if op[1] == "rest":
+                        rec.cls("read:rest-form-" + ["default", "-1", "None", "-7"][op[2] % 4])
+                        data = [lambda: f.read(), lambda: f.read(-1),
+                                lambda: f.read(None), lambda: f.read(-7)][op[2] % 4]()
+                    else:
+                        data = f.read(n)
                 except KeyError as e:
                     if keep != 1:
                         raise
